@@ -150,10 +150,9 @@ macro_rules! fmt_invalid_digit {
                 // `invalid_digit!`. Need to ensure we include the
                 // base suffix in that.
 
-                // SAFETY: safe since the iterator is not empty, as checked
-                // in `$iter.is_buffer_empty()`. Adding in the check hopefully
-                // will be elided since it's a known constant.
-                unsafe { $iter.step_unchecked() };
+                // NOTE: Don't step over the next byte to do so: it has not
+                // been looked at, and may be a digit separator.
+                $invalid_digit!($value, $iter.cursor() + 1, $iter.current_count())
             }
         }
         // Might have handled our base-prefix here.
